@@ -335,7 +335,7 @@ def c15(tier, seed):
     if thorough:
         # extra (not needed for the verdict): Apalache discharges an inductive invariant of the detection protocol, i.e. ArmStable
         # for behaviours of any length (data sizes bounded by the generators)
-        ap = tlc.apalache_inductive(os.path.join(SPEC, "Detect_Ind.tla"), os.path.join(c.work, "apalache"))
+        ap = tlc.apalache_inductive(os.path.join(SPEC, "apalache", "Detect_Ind.tla"), os.path.join(c.work, "apalache"))
         c.notes["apalache_inductive_invariant_Detect"] = ap
         if "error" in ap.values():
             raise ToolError(f"Apalache refutes the inductive invariant of Detect_Ind.tla: {ap}")
